@@ -399,6 +399,13 @@ struct FOut {
     channels_len_after_end: Vec<usize>,
     /// len() before each next()
     channels_len_before: Vec<usize>,
+    /// a clone of the channels() iterator taken after k items: (k, what the clone yields, what the original yields, clone's len())
+    channels_clone: Vec<(usize, Vec<Val>, Vec<Val>, usize)>,
+    /// channels_mut().rev(): the values seen, and the frame after writing other[n-1-i] through it
+    channels_mut_rev_seen: Vec<Val>,
+    after_channels_mut_rev: Vec<Val>,
+    /// alternating next() / next_back() on channels_mut()
+    channels_mut_both_ends: Vec<Val>,
     channels: Vec<Val>,
     /// positional use of the channels() iterator: nth(k) then the rest, skip(k), step_by(2)
     channels_nth: Vec<(usize, Option<Val>, Vec<Val>)>,
@@ -431,7 +438,7 @@ where
     <F::Sample as Sample>::Float: Fmt,
     F::Signed: FrameX,
     F::Float: FrameX,
-    F::Channels: ExactSizeIterator,
+    F::Channels: ExactSizeIterator + Clone,
 {
     let k = <F::Sample as Fmt>::KIND;
     let sk = k.signed_companion();
@@ -532,6 +539,35 @@ where
         out.channels_skip.push((k, f.channels().skip(k).take(n + 4).map(|s| s.to_val()).collect()));
     }
     out.channels_step2 = f.channels().step_by(2).take(n + 4).map(|s| s.to_val()).collect();
+    for k in [0usize, 1, n / 2, n] {
+        let mut it = f.channels();
+        for _ in 0..k.min(n) {
+            let _ = it.next();
+        }
+        let cl = it.clone();
+        let cl_len = cl.len();
+        out.channels_clone.push((k.min(n), cl.take(n + 4).map(|s| s.to_val()).collect(), it.take(n + 4).map(|s| s.to_val()).collect(), cl_len));
+    }
+    {
+        let mut g = f;
+        for (i, s) in g.channels_mut().rev().enumerate() {
+            out.channels_mut_rev_seen.push(s.to_val());
+            *s = <F::Sample as Fmt>::from_val(other[(n - 1 - i.min(n - 1)).min(n - 1)]);
+        }
+        out.after_channels_mut_rev = g.to_vals();
+        let mut g = f;
+        let mut it = g.channels_mut();
+        loop {
+            match it.next() {
+                Some(s) => out.channels_mut_both_ends.push(s.to_val()),
+                None => break,
+            }
+            match it.next_back() {
+                Some(s) => out.channels_mut_both_ends.push(s.to_val()),
+                None => break,
+            }
+        }
+    }
     out.channels_ref = f.channels_ref().map(|s| s.to_val()).collect();
     out.channels_ref_rev = f.channels_ref().rev().map(|s| s.to_val()).collect();
     // channels_mut: overwrite channel i with other[i]
@@ -608,7 +644,7 @@ where
     <S as Sample>::Float: Fmt,
     <S as Frame>::Signed: FrameX,
     <S as Frame>::Float: FrameX,
-    <S as Frame>::Channels: ExactSizeIterator,
+    <S as Frame>::Channels: ExactSizeIterator + Clone,
 {
     frame_ops::<S>(c)
 }
@@ -734,6 +770,29 @@ pub fn check_frame(c: &FCase, st: &mut Stats) -> CheckResult {
     }
     let exp: Vec<Val> = chans.iter().step_by(2).copied().collect();
     ensure!(veq_vec(&out.channels_step2, &exp), "{}: channels().step_by(2) yields {:?}, expected {:?}", what, out.channels_step2, exp);
+    for (k, cl, orig, cl_len) in &out.channels_clone {
+        let exp: Vec<Val> = chans[*k..].to_vec();
+        ensure!(veq_vec(cl, &exp), "{}: a clone of channels() taken after {} items yields {:?}, expected the remaining channels {:?}", what, k, cl, exp);
+        ensure!(veq_vec(orig, &exp), "{}: after being cloned at {} items the channels() iterator yields {:?}, expected {:?}", what, k, orig, exp);
+        ensure!(*cl_len == n - k, "{}: a clone of channels() taken after {} of {} items reports len() = {}", what, k, n, cl_len);
+    }
+    let rev: Vec<Val> = chans.iter().rev().copied().collect();
+    ensure!(veq_vec(&out.channels_mut_rev_seen, &rev), "{}: channels_mut().rev() visits {:?}, expected the channels in reverse {:?}", what, out.channels_mut_rev_seen, rev);
+    ensure!(veq_vec(&out.after_channels_mut_rev, &other), "{}: writing other[N-1-i] through channels_mut().rev() leaves {:?}, expected {:?}", what, out.after_channels_mut_rev, other);
+    {
+        // next() / next_back() alternately: front, back, second, second-to-last, ... each channel exactly once
+        let mut exp = Vec::new();
+        let (mut lo, mut hi) = (0usize, n);
+        while lo < hi {
+            exp.push(chans[lo]);
+            lo += 1;
+            if lo < hi {
+                hi -= 1;
+                exp.push(chans[hi]);
+            }
+        }
+        ensure!(veq_vec(&out.channels_mut_both_ends, &exp), "{}: alternating next() / next_back() on channels_mut() visits {:?}, expected {:?}", what, out.channels_mut_both_ends, exp);
+    }
     ensure!(veq_vec(&out.channels_ref, &chans), "{}: channels_ref() yielded {:?}", what, out.channels_ref);
     let rev: Vec<Val> = chans.iter().rev().copied().collect();
     ensure!(veq_vec(&out.channels_ref_rev, &rev), "{}: channels_ref().rev() yielded {:?}", what, out.channels_ref_rev);
